@@ -137,6 +137,13 @@ pub fn run_searches(property: &str, tier: &str, level: &str, searches: Vec<Searc
         let path = write_replay(property, &json!({"property": property, "classification": format!("known:{id}"), "engine": searches[0].engine, "search": label, "params": params, "hist": v.hist, "script": v.script, "detail": v.detail}));
         println!("KNOWN-FINDING: property={property} {id} {text} [re-observed in {n} executions; first witness: {} ; replay={path}]", v.script.join(" ; "));
     }
+    // listed findings of this property that this run did not reach (smaller tier, or the hazard fired without
+    // the engine deviating on the explored histories): still reported, and said to be not re-observed
+    for (id, text) in &texts {
+        if !known.contains_key(id) {
+            println!("KNOWN-FINDING: property={property} {id} {text} [listed; not re-observed within the bounds of this run]");
+        }
+    }
     let mut exit = 0;
     if std::env::var("VERIF_TRIAGE").is_ok() {
         for (_, _, v) in &violations {
@@ -328,6 +335,11 @@ pub fn run_flat(
     }
     for (id, (n, first)) in &known {
         println!("KNOWN-FINDING: property={property} {id} {} [re-observed {n} times; first: {}]", texts.get(id).cloned().unwrap_or_default(), first.chars().take(300).collect::<String>());
+    }
+    for (id, text) in &texts {
+        if !known.contains_key(id) {
+            println!("KNOWN-FINDING: property={property} {id} {text} [listed; not re-observed within the bounds of this run]");
+        }
     }
     let mut exit = 0;
     for v in violations.iter().take(20) {
